@@ -536,7 +536,7 @@ func genChf(o genOpts, w *bufio.Writer) {
 		counter = 0
 		// one scenario: 1-3 subscribers, 1-2 rating groups each, 1-2 sessions
 		nsub := 1 + r.intn(2)
-		huge := o.mode == "" && r.chance(6)     // volumes whose price lies between 2^31 and 2^32
+		huge := o.mode == "" && r.chance(14)    // volumes whose price lies between 2^31 and 2^32
 		if o.mode == "" && r.chance(8) {
 			fmt.Fprintf(w, "chf slowdb 15\n") // the account store writes slowly in this history
 		}
@@ -660,7 +660,7 @@ func genChf(o genOpts, w *bufio.Writer) {
 				s.lastGrant[rg] = req
 			}
 			var trigs []string
-			if r.chance(12) {
+			if r.chance(12) || (huge && r.chance(35)) {
 				trigs = append(trigs, "F")
 			} else if r.chance(10) {
 				trigs = append(trigs, r.pickStr("V", "Q", "M", "I", "X"))
@@ -704,10 +704,14 @@ func genChf(o genOpts, w *bufio.Writer) {
 				fmt.Fprintf(w, "chf recharge %s\n", hexOf([]byte(r.pickStr(s.supi+"_1", s.supi+"_2", s.supi, s.supi+"_x", "imsi-404_1", s.supi+"_1_2", "_", s.supi+"_-3", s.supi+"_99999999999",
 					s.supi+"_010", s.supi+"_08", s.supi+"_0x1", s.supi+"_+1", s.supi+"_ 1", s.supi+"_01"))))
 			}
-			if o.mode == "" && r.chance(6) {
+			if o.mode == "" && !huge && r.chance(6) {
 				// the operator changes the tariff (and re-bases the balance) in the middle of the history
 				fmt.Fprintf(w, "chf acct %s %d %s %s\n", hexOf([]byte(s.supi)), rgs[r.intn(2)], hexOf([]byte(strconv.Itoa(r.pick(500, 5000, 100000)))),
 					hexOf([]byte(strconv.Itoa(r.pick(1, 2, 3, 5, 7)))))
+			}
+			if o.mode == "costs" && r.chance(15) {
+				fmt.Fprintf(w, "chf acct %s %d %s %s\n", hexOf([]byte(s.supi)), rgs[r.intn(2)], hexOf([]byte(strconv.Itoa(r.pick(500, 5000, 100000)))),
+					hexOf([]byte(r.pickStr("0", "", "abc", "0.5", "1.5", "2", "3", "5", "10", "007", "4294967296", "1."))))
 			}
 			if r.chance(6) {
 				fmt.Fprintf(w, "chf credit %s %d %d\n", hexOf([]byte(s.supi)), rgs[r.intn(2)], r.pick(100, 1000, 5000))
